@@ -412,7 +412,11 @@ def run(res, tier, seed, replay_sources=None):
         if steps is None:
             viol("no-output", "the case produced no output", cid, s)
             continue
-        crash = [x for x in steps if x.exc is not None and (x.exc[0].startswith("crash") or x.exc[0] == "hang")]
+        crash = [x for x in steps if x.exc is not None and x.exc[0].startswith("crash")]
+        if any(x.exc is not None and x.exc[0] == "hang" for x in steps) and not crash:
+            # a call that does not return within the case limit (wavelet re-solves of large 3-d grids under the sanitizers, huge proposals) says
+            # nothing about copies: the statement has no running-time clause; counted, the case is not judged beyond that call
+            stats["cases_cut_short_by_a_slow_call"] = stats.get("cases_cut_short_by_a_slow_call", 0) + 1
         if pl[0] == "E":
             _, s, kind, b, e, npre, nd, tail = pl
             stats["equality_cases"] += 1
@@ -469,7 +473,9 @@ def run(res, tier, seed, replay_sources=None):
                 if pos >= len(steps):
                     break
                 ms = steps[pos]
-                if ms.exc is not None and (ms.exc[0].startswith("crash") or ms.exc[0] == "hang"):
+                if ms.exc is not None and ms.exc[0] == "hang":
+                    break    # slow call (counted above): the rest of the case was not executed
+                if ms.exc is not None and ms.exc[0].startswith("crash"):
                     sm = sib[pos] if pos < len(sib) else None
                     if sm is not None and sm.exc is not None and sm.exc[0] == ms.exc[0]:
                         stats["mutations_failing_on_both_sides"] = stats.get("mutations_failing_on_both_sides", 0) + 1
@@ -483,8 +489,10 @@ def run(res, tier, seed, replay_sources=None):
                 theirs = sib[pos + 1 + nd:pos + 1 + nd + nself]
                 mpos = pos
                 pos += 1 + nd + nself
+                if len(cur) < nd and any(x.exc is not None and x.exc[0] == "hang" for x in cur):
+                    break    # the observation itself hit the case limit
                 if len(cur) < nd:
-                    cr = [x for x in cur if x.exc is not None and (x.exc[0].startswith("crash") or x.exc[0] == "hang")]
+                    cr = [x for x in cur if x.exc is not None and x.exc[0].startswith("crash")]
                     viol("crash-observing-%s:%s:%s" % ("copy" if side == "a" else "source", fam, m.split()[0]),
                          "observing the other side after %s -> %s" % (m[:60], cr[0].exc if cr else "output truncated"), cid, s)
                     break
